@@ -15,7 +15,13 @@ def rand_asg(rng, n, maxvar):
     return [rng.choice([0, 1, 2, 2]) if i <= maxvar else 2 for i in range(n)]
 
 
+VMAPS = [[3, 17, 64, 65], [0, 255, 256, 65535], [1, 65535, 65536, 65537], [65536, 70000, 131072, 131073], [5, 1 << 20, (1 << 20) + 1, (1 << 20) + 7]]
+
+
 def gen_mtbdd_history(rng, nsteps, full):
+    # "vmap": the W logical variables are spread over physical variable indices (beyond 8 / 16 / 20 bits); steps whose
+    # meaning depends on variables being contiguous (rename / extend / prefix) are left out of such histories
+    vmap = rng.choice(VMAPS) if rng.random() < 0.15 else None
     live = {}          # handle -> conservative upper bound of the highest variable the function depends on (-1: constant)
     steps = []
     reuse = rng.random() < 0.5
@@ -72,6 +78,8 @@ def gen_mtbdd_history(rng, nsteps, full):
                 vs = sorted(rng.sample(range(W), rng.randint(1, 3)))
                 steps.append(["project", d, h, vs, rng.choice(["max", "max", "plus", "times"])])
                 live[d] = live[h]
+            elif vmap:
+                continue
             elif kind < 0.80:
                 ub = live[h]
                 if ub < W - 1:
@@ -94,6 +102,8 @@ def gen_mtbdd_history(rng, nsteps, full):
                 steps.append(["prefix", d, h, [rng.choice([0, 1, 2]) for _ in range(W - off + rng.randint(0, 1))], off])
                 live[d] = min(live[h], off - 1)
     c = {"op": "mtbdd", "W": W, "steps": steps, "sz": not full}
+    if vmap:
+        c["vmap"] = vmap
     if reuse:
         c["reuse"] = True       # one functor object per operation for the whole history (see harness/ops_mtbdd.cc)
     return c
